@@ -31,6 +31,9 @@ using fsfb_a   = na::ndarray_t<nmtools_array<float,6>, nmtools_array<size_t,2>>;
 using dyn_a    = na::ndarray_t<nmtools_list<float>, nmtools_list<size_t>>;
 using clip_shape = nmtools_tuple<nm::clipped_size_t<2>,nm::clipped_size_t<3>>;
 using clip_a   = na::ndarray_t<nm::utl::static_vector<float,6>, clip_shape>;                       // clipped (bounded) shape, bounded buffer
+using dyn2_a   = na::ndarray_t<nmtools_list<float>, nmtools_array<size_t,2>>;                       // run-time extents, fixed dimension 2
+using c13_a    = na::ndarray_t<nmtools_array<float,3>, nmtools_tuple<meta::ct<1>,meta::ct<3>>>;     // constant shape (1,3): axis 0 stretches
+using c23_a    = fixed_a;
 template <class T> T& lv();
 '''
 
@@ -93,6 +96,12 @@ WITNESSES = [
    "void f(clip_a& a){ auto v = nm::unwrap(view::tile(a, nmtools_tuple{2_ct,1_ct})); using V = decltype(v); static_assert(!meta::is_fixed_shape_v<V>); static_assert(!meta::is_fixed_size_v<V>); }"),
  W("c11_clip_expand_dims", "C11", "pass", "expand_dims of a clipped-shape operand has no fixed shape/size",
    "void f(clip_a& a){ auto v = nm::unwrap(view::expand_dims(a, 0_ct)); using V = decltype(v); static_assert(!meta::is_fixed_shape_v<V>); static_assert(!meta::is_fixed_size_v<V>); }"),
+ W("c11_rt_times_const_with_one", "C11", "pass", "run-time-shaped (2-d) operand broadcast with a constant (1,3) operand: axis 0 of the result is unknown at compile time, so no static size bound may be reported",
+   "void f(dyn2_a& a, c13_a& b){ auto v = nm::unwrap(view::add(a,b)); using V = decltype(v); static_assert(!meta::is_fixed_size_v<V>); static_assert(!meta::is_bounded_size_v<V>); }"),
+ W("c11_const_with_one_times_rt", "C11", "pass", "constant (1,3) operand broadcast with a run-time-shaped operand (other order): no static size bound",
+   "void f(dyn2_a& a, c13_a& b){ auto v = nm::unwrap(view::add(b,a)); using V = decltype(v); static_assert(!meta::is_fixed_size_v<V>); static_assert(!meta::is_bounded_size_v<V>); }"),
+ W("c11_rt_times_const_no_one", "C11", "pass", "run-time-shaped operand broadcast with a constant (2,3) operand: result extents are at most (2,3) or the operands do not broadcast; a bound, if reported, is >= 6",
+   "void f(dyn2_a& a, c23_a& b){ auto v = nm::unwrap(view::add(a,b)); using V = decltype(v); static_assert(!meta::is_fixed_size_v<V>); if constexpr (meta::is_bounded_size_v<V>) static_assert(meta::bounded_size_v<V> >= 6); }"),
  W("c11_const_concat_const", "C11", "pass", "concatenate of two constant-shape operands along a ct axis has the exact fixed size 12",
    "void f(fixed_a& a){ auto v = nm::unwrap(view::concatenate(a,a,0_ct)); using V = decltype(v); static_assert(meta::fixed_size_v<V> == 12); }"),
  # ---------------- C18 / C19 / C02: rejected at compile time
